@@ -506,3 +506,48 @@ def assignment_cases(text: str):
             walk(c)
     walk(tree)
     return out
+
+
+def block_cases(text: str):
+    """[(physical lines of the body of a headed expressions block, [(name, expression)] as Lark reads the block)] for every headed
+    block of a text Lark accepts in which every assignment stands on one line of its own (no continuation lines)"""
+    import lark
+
+    global _RAW_PARSER
+    if _RAW_PARSER is None:
+        _RAW_PARSER = Parser(parser="lalr", propagate_positions=True)
+    try:
+        tree = _RAW_PARSER.parse(text)
+    except Exception:  # noqa: BLE001
+        return []
+    out = []
+    for t in tree.iter_subtrees_topdown():
+        if t.data != "expressions":
+            continue
+        heads = [c for c in t.children if isinstance(c, lark.Token) and c.type == "COMPONENT_NAME"]
+        asg = [c for c in t.children if isinstance(c, lark.Tree) and c.data == "assignment"]
+        if not heads or not asg:
+            continue
+        start = text.find("\n", heads[-1].end_pos)
+        if start < 0:
+            continue
+        last = asg[-1]
+        cms = [c for c in t.children if isinstance(c, lark.Tree) and c.data == "comment"]
+        end = max([last.meta.end_pos] + [c.meta.end_pos for c in cms])
+        nl = text.find("\n", end - 1) if end > 0 and text[end - 1] != "\n" else end - 1
+        body = text[start + 1: (nl if nl >= 0 else len(text))]
+        lines = [ln.rstrip("\r") for ln in body.split("\n")]
+        code_lines = [ln for ln in lines if ln.strip() and not ln.lstrip(" \t\f\r").startswith("#")]
+        exp = []
+        ok = len(code_lines) == len(asg) and all(ord(ch) < 128 for ch in body)
+        for a_ in asg:
+            try:
+                w = tree_to_sx(a_.children[1])
+            except Exception:  # noqa: BLE001
+                w = None
+            if w is None:
+                ok = False
+            exp.append([str(a_.children[0]), w])
+        if ok:
+            out.append((lines, exp))
+    return out
